@@ -277,6 +277,84 @@ def _c_range(src):
     return None
 
 
+def _c_function(src, name):
+    m = re.search(r"\n" + re.escape(name) + r"\(.*?\n}\n", src, re.S)
+    if not m:
+        raise NotRecognised("%s not found" % name)
+    return m.group(0)
+
+
+def _errno_proto(src, func, call_re, var):
+    """(clears errno before the libc call?, code of the failure test) of one native getter.
+    codes: 0 = `errno != 0`; 1 = `<var> == -1 && errno != 0`; 2 = `<var> == -1` (return value only)."""
+    body = _c_function(src, func)
+    body = re.sub(r"/\*.*?\*/", "", body, flags=re.S)
+    body = re.sub(r"//[^\n]*", "", body)
+    calls = list(re.finditer(call_re, body))
+    if not calls:
+        raise NotRecognised("%s: libc call not found" % func)
+    first = calls[0]
+    head, tail = body[:first.start()], body[first.end():]
+    clears = bool(re.search(r"\berrno\s*=\s*0\s*;", head))
+    if re.search(r"\berrno\s*=", re.sub(r"\berrno\s*=\s*0\s*;", "", head).replace("==", "")):
+        raise NotRecognised("%s: errno assigned something else before the call" % func)
+    m = re.search(r"if\s*\((.*?)\)\s*\{?\s*return\s+PyErr_SetFromErrno", tail, re.S)
+    if not m:
+        raise NotRecognised("%s: failure test not found" % func)
+    cond = re.sub(r"\s+", "", m.group(1))
+    while cond.startswith("(") and cond.endswith(")") and cond.count("(") == 1:
+        cond = cond[1:-1]
+    v = re.escape(var)
+    if cond == "errno!=0" or cond == "errno":
+        return clears, 0
+    if re.fullmatch(r"\(?%s==-1\)?&&\(?errno!=0\)?" % v, cond) or re.fullmatch(r"\(?errno!=0\)?&&\(?%s==-1\)?" % v, cond):
+        return clears, 1
+    if re.fullmatch(r"%s==-1" % v, cond) or re.fullmatch(r"%s<0" % v, cond):
+        return clears, 2
+    raise NotRecognised("%s: failure test `%s`" % (func, cond))
+
+
+def _affinity_get_proto(src):
+    body = _c_function(src, "psutil_proc_cpu_affinity_get")
+    body = re.sub(r"/\*.*?\*/", "", body, flags=re.S)
+    body = re.sub(r"//[^\n]*", "", body)
+    m = re.search(r"if\s*\(\s*sched_getaffinity\s*\(\s*pid\s*,\s*setsize\s*,\s*mask\s*\)\s*==\s*0\s*\)\s*\{?\s*break\s*;", body)
+    if not m:
+        raise NotRecognised("psutil_proc_cpu_affinity_get: `if (sched_getaffinity(...) == 0) break;` not found")
+    head = body[:m.start()]
+    clears = bool(re.search(r"\berrno\s*=\s*0\s*;", head))
+    if len(re.findall(r"\bsched_getaffinity\s*\(", body)) != 1:
+        raise NotRecognised("psutil_proc_cpu_affinity_get: more than one sched_getaffinity call")
+    return clears, 2
+
+
+def _einval_value_error(tree):
+    """Does cpu_affinity_set raise ValueError for the kernel's EINVAL once its diagnosis loop found nothing?"""
+    fn = _methods(tree, "Process")["cpu_affinity_set"]
+    handlers = [h for n in ast.walk(fn) if isinstance(n, ast.Try) for h in n.handlers]
+    if len(handlers) != 1:
+        raise NotRecognised("cpu_affinity_set: expected one except clause")
+    h = handlers[0]
+    if not (len(h.body) == 2 and isinstance(h.body[0], ast.If) and isinstance(h.body[1], ast.Raise) and h.body[1].exc is None):
+        raise NotRecognised("cpu_affinity_set: shape of the except clause")
+    t = extract.unparse(h.body[0].test).replace(" ", "")
+    if t != "isinstance(err,ValueError)orerr.errno==errno.EINVAL":
+        raise NotRecognised("cpu_affinity_set: diagnosis condition %s" % t)
+    blk = h.body[0].body
+    loops = [i for i, st in enumerate(blk) if isinstance(st, ast.For)]
+    if len(loops) != 1:
+        raise NotRecognised("cpu_affinity_set: diagnosis loop")
+    rest = blk[loops[0] + 1:]
+    if not rest:
+        return False
+    if len(rest) == 1 and isinstance(rest[0], ast.If) and not rest[0].orelse \
+            and extract.unparse(rest[0].test).replace(" ", "") in ("isinstance(err,OSError)", "notisinstance(err,ValueError)") \
+            and isinstance(rest[0].body[-1], ast.Raise) and _raises(rest[0], "ValueError") \
+            and all(isinstance(x, (ast.Assign, ast.Raise)) for x in rest[0].body):
+        return True
+    raise NotRecognised("cpu_affinity_set: statements after the diagnosis loop")
+
+
 def facts(snap, F):
     cache = {}
 
@@ -298,6 +376,25 @@ def facts(snap, F):
     rl = lambda: get("rl", lambda: _rlimit_facts(linux()))  # noqa: E731
     fr = lambda: get("fr", lambda: _front_facts(init()))  # noqa: E731
 
+    posix = lambda: get("posix", lambda: snap.source("_psutil_posix.c"))  # noqa: E731
+    procc = lambda: get("procc", lambda: snap.source("arch/linux/proc.c"))  # noqa: E731
+    gp = lambda: get("gp", lambda: _errno_proto(posix(), "psutil_posix_getpriority", r"\bgetpriority\s*\(", "priority"))  # noqa: E731
+    ig = lambda: get("ig", lambda: _errno_proto(procc(), "psutil_proc_ioprio_get", r"\bioprio_get\s*\(", "ioprio"))  # noqa: E731
+    ag = lambda: get("ag", lambda: _affinity_get_proto(procc()))  # noqa: E731
+    F.try_add("getpriorityClearsErrno", "Bool", lambda: extract.lean_bool(gp()[0]),
+              "psutil_posix_getpriority executes `errno = 0;` before getpriority(2) (whose legitimate results include -1)")
+    F.try_add("getpriorityErrTest", "Nat", lambda: extract.lean_nat(gp()[1]),
+              "failure test after getpriority(2): 0 = `errno != 0`, 1 = `priority == -1 && errno != 0`, 2 = `priority == -1`")
+    F.try_add("ioprioGetClearsErrno", "Bool", lambda: extract.lean_bool(ig()[0]),
+              "psutil_proc_ioprio_get executes `errno = 0;` before ioprio_get(2)")
+    F.try_add("ioprioGetErrTest", "Nat", lambda: extract.lean_nat(ig()[1]),
+              "failure test after ioprio_get(2): 0 = `errno != 0`, 1 = `ioprio == -1 && errno != 0`, 2 = `ioprio == -1`")
+    F.try_add("affinityGetClearsErrno", "Bool", lambda: extract.lean_bool(ag()[0]),
+              "psutil_proc_cpu_affinity_get executes `errno = 0;` before sched_getaffinity(2)")
+    F.try_add("affinityGetErrTest", "Nat", lambda: extract.lean_nat(ag()[1]),
+              "success test of sched_getaffinity(2): 2 = the return value alone (`== 0` -> break), errno read only after a failure")
+    F.try_add("affinityEinvalRaisesValueError", "Bool", lambda: extract.lean_bool(_einval_value_error(linux())),
+              "cpu_affinity_set raises ValueError for the kernel's EINVAL when its diagnosis loop finds no offending CPU (fixes/C18-ineligible-valueerror.diff); false = EINVAL is passed on as OSError")
     F.try_add("ioprioClassShift", "Nat", lambda: extract.lean_nat(cf()[0]),
               "IOPRIO_CLASS_SHIFT of psutil/arch/linux/proc.c")
     F.try_add("ioprioMacrosCanonical", "Bool", lambda: extract.lean_bool(cf()[1]),
@@ -558,6 +655,88 @@ def call_front(ps, proc, req):
     raise ValueError(req)
 
 
+# ------------------------------------------------------------------------------ call modes
+#
+# The same public call made in different surroundings. None of them may change an answer or an effect: the
+# model side is the same for all (the only context the model takes is the cached status file of a oneshot block).
+
+MODES = ("plain", "oneshot", "oneshot-warm", "as_dict", "iter", "iter-info", "second")
+_AD = object()          # ad_value sentinel: as_dict()/process_iter(attrs) swallowed an AccessDenied
+ATTR_OF = {"nice": "nice", "ionice": "ionice", "cpu_affinity": "cpu_affinity"}
+
+
+def is_get(req):
+    return getter(req) == req
+
+
+def warm_up(proc):
+    """Fill the oneshot caches (stat, status, …) the way an application that asks several things would."""
+    for name in ("num_threads", "uids", "name", "ppid", "cpu_times", "num_ctx_switches"):
+        try:
+            getattr(proc, name)()
+        except Exception:  # noqa: BLE001 — warm-up only
+            pass
+
+
+def mode_for(req, mode):
+    """The mode actually usable for this request (as_dict / info only exist for argument-less getters)."""
+    if mode in ("as_dict", "iter-info") and not (is_get(req) and req["kind"] in ATTR_OF):
+        return "oneshot" if mode == "as_dict" else "iter"
+    return mode
+
+
+def iter_object(ps, pid, attrs=None):
+    kw = {} if attrs is None else {"attrs": attrs, "ad_value": _AD}
+    found = None
+    for p in ps.process_iter(**kw):
+        if p.pid == pid:
+            found = p
+    if found is None:
+        raise ps.NoSuchProcess(pid)
+    return found
+
+
+def call_in_mode(ps, proc, req, mode):
+    """Run `req` on `proc` (or on the object process_iter() yields for the same PID) in `mode`."""
+    mode = mode_for(req, mode)
+    if mode == "plain":
+        return call_front(ps, proc, req)
+    if mode == "oneshot":
+        with proc.oneshot():
+            return call_front(ps, proc, req)
+    if mode == "oneshot-warm":
+        with proc.oneshot():
+            warm_up(proc)
+            return call_front(ps, proc, req)
+    if mode == "as_dict":
+        name = ATTR_OF[req["kind"]]
+        r = proc.as_dict(attrs=[name], ad_value=_AD)[name]
+        if r is _AD:
+            raise ps.AccessDenied(proc.pid)
+        return r
+    if mode == "iter":
+        return call_front(ps, iter_object(ps, proc.pid), req)
+    if mode == "iter-info":
+        name = ATTR_OF[req["kind"]]
+        r = iter_object(ps, proc.pid, [name]).info[name]
+        if r is _AD:
+            raise ps.AccessDenied(proc.pid)
+        return r
+    if mode == "second":
+        if is_get(req):
+            r1 = call_front(ps, proc, req)
+            r2 = call_front(ps, proc, req)
+            if canon_ok(ps, req, r1) != canon_ok(ps, req, r2):
+                return ("two calls differ", r1, r2)          # canon_ok reports it as unexpected
+            return r2
+        try:
+            call_front(ps, proc, getter(req))                # the object has answered the get form before
+        except Exception:  # noqa: BLE001
+            pass
+        return call_front(ps, proc, req)
+    raise ValueError(mode)
+
+
 class SimImpl:
     """Real psutil front end + _pslinux over a fake procfs and the simulated native layer."""
 
@@ -594,6 +773,7 @@ class SimImpl:
         return f
 
     def close(self):
+        self.end_block()
         for obj, n, v in reversed(self.saved):
             setattr(obj, n, v)
         self.fp.close()
@@ -626,14 +806,33 @@ class SimImpl:
         if not os.path.exists(self.fp.path("0/stat")):
             self.fp.write("0/stat", b"0 (psv-c18)" + self.stat_tail)
             self.fp.write("0/status", b"\n".join(self.status_lines))
+        self.end_block()
         self.objs = {}
 
-    def do(self, pid, req):
+    def begin_block(self, pid):
+        """Everything that follows on `pid` happens inside ONE `with p.oneshot():` whose caches are warm."""
+        self.end_block()
+        if pid not in self.objs:
+            self.objs[pid] = self.ps.Process(pid)
+        cm = self.objs[pid].oneshot()
+        cm.__enter__()
+        self.block = (pid, cm)
+        warm_up(self.objs[pid])
+
+    def end_block(self):
+        blk, self.block = getattr(self, "block", None), None
+        if blk is not None:
+            try:
+                blk[1].__exit__(None, None, None)
+            except Exception:  # noqa: BLE001
+                pass
+
+    def do(self, pid, req, mode="plain"):
         self.sim.log = []
         try:
             if pid not in self.objs:
                 self.objs[pid] = self.ps.Process(pid)
-            out = canon_ok(self.ps, req, call_front(self.ps, self.objs[pid], req))
+            out = canon_ok(self.ps, req, call_in_mode(self.ps, self.objs[pid], req, mode))
         except BaseException as e:  # noqa: BLE001 — every exception is an observable
             if isinstance(e, (KeyboardInterrupt, SystemExit)):
                 raise
@@ -794,6 +993,52 @@ def gen_history(rng):
     return w, ops
 
 
+MODE_WEIGHTS = (("plain", 25), ("oneshot", 15), ("oneshot-warm", 15), ("as_dict", 12), ("iter", 8), ("iter-info", 8),
+                ("second", 17))
+
+
+def pick_mode(rng):
+    r = rng.randrange(sum(w for _, w in MODE_WEIGHTS))
+    for m, w in MODE_WEIGHTS:
+        if r < w:
+            return m
+        r -= w
+    return "plain"
+
+
+def with_modes(rng, hist, p_block=0.15):
+    """Give every call of a history a mode chosen at random; some histories run as one warm oneshot block."""
+    ops = [dict(o, mode=pick_mode(rng)) for o in hist["ops"]]
+    h = dict(hist, ops=ops)
+    if rng.random() < p_block:
+        h["block"] = T_PID
+    return h
+
+
+def mode_histories():
+    """Every mode x a small set of requests of each family (get, valid set, each invalid clause) x 2 states, each
+    followed by the get form in the same mode; and each as a warm oneshot block (set then get inside the block
+    must show the new value)."""
+    worlds = [("w4", dict(ncpu=4)), ("w4-confined", dict(ncpu=4, cpuset=[0, 1], affinity=[0, 1], nice=-1,
+                                                           ioprio=(2 << 13) | 4))]
+    reqs = [R_nice(), R_nice(5), R_nice(-1), R_ionice(), R_ionice(2, 3), R_ionice(3), R_ionice(None, 3), R_ionice(3, 1),
+            R_ionice(2, 8), R_aff(), R_aff([0, 1]), R_aff([1]), R_aff([1, 1, 0]), R_aff([]), R_aff([9]), R_aff([2]),
+            R_aff([-1]), R_rl(3), R_rl(3, (5, 10)), R_rl(3, (5, -1)), R_rl(3, (1,)), R_rl(3, (10, 5)), R_rl(16),
+            R_rl(16, (1, 2))]
+    for _, kw in worlds:
+        for req in reqs:
+            for mode in MODES:
+                yield {"world": mk_world(**kw), "mode": "sim", "tag": "modes",
+                       "ops": [dict(op(T_PID, req), mode=mode), dict(op(T_PID, getter(req)), mode=mode),
+                               dict(op(S_PID, getter(req)), mode=mode)]}
+            yield {"world": mk_world(**kw), "mode": "sim", "tag": "modes", "block": T_PID,
+                   "ops": [op(T_PID, req), op(T_PID, getter(req)), op(S_PID, getter(req))]}
+    # inside one warm block: change the mask, then name an ineligible CPU (the cached status file is stale)
+    for aff0, first, then in (([0], [0, 1], [2]), ([0, 1], [0], [2]), ([0, 1], [1], [3]), ([0], [1], [2, 3])):
+        yield {"world": mk_world(ncpu=4, cpuset=[0, 1], affinity=aff0), "mode": "sim", "tag": "modes", "block": T_PID,
+               "ops": [op(T_PID, R_aff(first)), op(T_PID, R_aff(then)), op(T_PID, R_aff())]}
+
+
 # ------------------------------------------------------------------------------ comparison
 
 
@@ -822,6 +1067,8 @@ def judge(ctx, res, hist, i, impl, m, live=False):
         model = {k: v for k, v in model.items() if k != "log"}
         spec = None if spec is None else {k: v for k, v in spec.items() if k != "log"}
     inp = {"world": hist["world"], "ops": hist["ops"][:i + 1], "mode": hist["mode"], "source": hist.get("tag", "")}
+    if hist.get("block") is not None:
+        inp["block"] = hist["block"]
     if spec is not None:
         res.count("spec:" + ("ValueError" if spec["out"].get("exc") == "ValueError" else spec["out"]["kind"]))
         if spec["out"].get("exc") == "ValueError":
@@ -851,20 +1098,31 @@ def run_sim_histories(ctx, impl, hists):
     lines = []
     for h in hists:
         lines.append(dict(h["world"], op="reset"))
-        lines.extend({"op": "call", "pid": o["pid"], "req": o["req"]} for o in h["ops"])
+        view = None
+        if h.get("block") is not None:
+            # the status file is cached when the block is entered: it keeps showing the mask of that moment
+            view = [p for p in h["world"]["procs"] if p["pid"] == h["block"]][0]["affinity"]
+        for o in h["ops"]:
+            ln = {"op": "call", "pid": o["pid"], "req": o["req"]}
+            if view is not None and o["pid"] == h["block"]:
+                ln["status_mask"] = list(view)
+            lines.append(ln)
     outs = ctx.driver().batch(lines)
     rows_all = []
     i = 0
     for h in hists:
         i += 1
         impl.begin(h["world"])
+        if h.get("block") is not None:
+            impl.begin_block(h["block"])
         rows = []
         for o in h["ops"]:
             m = outs[i]
             i += 1
             if "bad" in m:
                 raise RuntimeError("driver rejected %r: %s" % (o, m))
-            rows.append((impl.do(o["pid"], o["req"]), m))
+            rows.append((impl.do(o["pid"], o["req"], o.get("mode", "plain")), m))
+        impl.end_block()
         rows_all.append(rows)
     return rows_all, len(lines)
 
@@ -879,16 +1137,21 @@ def check_sim(ctx, res, impl, hists):
         for h, rows in zip(chunk, rows_all):
             res.count("family:" + h["tag"])
             feats = set()
+            if h.get("block") is not None:
+                res.count("mode:block(one warm oneshot around the whole history)")
             for i, (im, m) in enumerate(rows):
                 for f in req_features(h["ops"][i]["req"], h["world"]):
                     feats.add(f)
+                md = mode_for(h["ops"][i]["req"], h["ops"][i].get("mode", "plain"))
+                res.count("mode:" + md)
+                res.count("mode:%s:%s" % (md, "get" if is_get(h["ops"][i]["req"]) else "set"))
                 res.count("out:" + (im["out"].get("exc") or im["out"]["kind"]))
                 if not judge(ctx, res, h, i, im, m):
                     break
             for f in feats:
                 res.count("feature:" + f)
             res.count("ops", len(h["ops"]))
-            res.case((h["world"], h["ops"]), nontrivial=any(":set" in f for f in feats),
+            res.case((h["world"], h["ops"], h.get("block")), nontrivial=any(":set" in f for f in feats),
                      sample={"family": h["tag"], "ops": h["ops"], "impl_last": rows[-1][0]["out"]}
                      if res.evaluations in (3, 700, 2500, 6000) else None)
     return total
@@ -1036,7 +1299,8 @@ def live_ops(ctx, env, st0):
         if not env["can_lower_nice"]:
             vals = sorted(v for v in vals if v >= st0["nice"])
     for v in vals:
-        ops += [op(T, R_nice(v)), op(T, R_nice())]
+        # the get after nice(-1) also once as a plain call: nothing may clear a stale errno before the C call
+        ops += [op(T, R_nice(v)), dict(op(T, R_nice()), mode="plain") if v == -1 else op(T, R_nice())]
     ops += [op(T, R_nice(2**31))]
     return ops
 
@@ -1049,6 +1313,97 @@ def poison_errno():
         os.stat("/nonexistent-psv-c18/x")
     except OSError:
         pass
+
+
+POISON_ERRNO = errno.ENOENT
+
+
+def live_block_ops(env, st):
+    """A short history for the live child that runs inside one warm oneshot block."""
+    T, E, ncpu = st["pid"], env["eligible"], env["ncpu"]
+    n = st["nice"]
+    ops = [op(T, R_nice()), op(T, R_nice(min(19, n + 1))), op(T, R_nice()),
+           op(T, R_ionice()), op(T, R_ionice(2, 6)), op(T, R_ionice()), op(T, R_ionice(3)), op(T, R_ionice()),
+           op(T, R_ionice(2, 9)), op(T, R_ionice(None, 2)), op(T, R_aff())]
+    if len(E) >= 3:
+        ops += [op(T, R_aff(E[:2])), op(T, R_aff()), op(T, R_aff([E[2]])), op(T, R_aff()), op(T, R_aff([ncpu])),
+                op(T, R_aff([E[0], E[2]])), op(T, R_aff()), op(T, R_aff([ncpu + 1, 1023])), op(T, R_aff([])), op(T, R_aff())]
+    s, h = st["rlimits"][0]
+    top = min(h, 2**40)
+    ops += [op(T, R_rl(0)), op(T, R_rl(0, (top // 3, top))), op(T, R_rl(0)), op(T, R_rl(0, (top, top // 3))),
+            op(T, R_rl(0, (1,))), op(T, R_rl(0)), op(T, R_rl(16))]
+    return ops
+
+
+def run_live(ctx, res, live, env, T, S, ops, tag, block):
+    """One history on the live child: every call compared with the Lean model run on the state captured from the
+    OS (and with the spec), in the call mode of the op; with `block`, inside one warm `oneshot()`."""
+    ps = ctx.psutil
+    st0 = [live.os_state(T, env["eligible"]), live.os_state(S, env["eligible"])]
+    world = {"self": os.getpid(), "ncpu": env["ncpu"], "nr_open": env["nr_open"], "cap": env["cap"], "procs": st0}
+    hist = {"world": world, "ops": ops, "mode": "live", "tag": tag}
+    lines = [dict(world, op="reset")]
+    for o in ops:
+        ln = {"op": "call", "pid": o["pid"], "req": o["req"], "errno": POISON_ERRNO}
+        if block:
+            ln["status_mask"] = list(st0[0]["affinity"])
+        lines.append(ln)
+    outs = ctx.driver().batch(lines)[1:]
+    proc = ps.Process(T)
+    cm = None
+    done = 0
+    ok = True
+    try:
+        if block:
+            cm = proc.oneshot()
+            cm.__enter__()
+            warm_up(proc)
+            res.count("mode:live:block(one warm oneshot around the whole history)")
+        for i, (o, m) in enumerate(zip(ops, outs)):
+            if "bad" in m:
+                raise RuntimeError("driver rejected %r: %s" % (o, m))
+            mode = o.get("mode", "plain")
+            try:
+                poison_errno()
+                out = canon_ok(ps, o["req"], call_in_mode(ps, proc, o["req"], mode))
+            except BaseException as e:  # noqa: BLE001
+                if isinstance(e, (KeyboardInterrupt, SystemExit)):
+                    raise
+                out = canon_exc(ps, e)
+            im = {"out": out, "procs": [live.os_state(T, env["eligible"]), live.os_state(S, env["eligible"])]}
+            # renderer validation: the status line is the kernel's rendering of the current mask
+            with open("/proc/%d/status" % T, "rb") as f:
+                line = [l for l in f.read().split(b"\n") if l.startswith(b"Cpus_allowed_list:")][0]
+            if line != b"Cpus_allowed_list:\t" + cpulist(im["procs"][0]["affinity"]).encode():
+                res.disagree("model", {"live_status_line": line.decode()}, cpulist(im["procs"][0]["affinity"]), None,
+                             note="kernel's Cpus_allowed_list differs from the harness renderer")
+            res.count("family:" + tag)
+            res.count("live:" + o["req"]["kind"])
+            res.count("mode:live:" + mode_for(o["req"], mode))
+            rq = o["req"]
+            if rq["kind"] == "nice" and rq["value"] is None and im["procs"][0]["nice"] == -1:
+                res.count("live:nice-get-of--1-with-stale-errno")
+            if rq["kind"] == "rlimit" and rq.get("limits") is not None and len(rq["limits"]) == 2:
+                lim = [x % U64 for x in rq["limits"] if isinstance(x, int)]
+                if len(lim) == 2 and lim[0] > lim[1]:
+                    res.count("live:rlimit:soft>hard")
+                if -1 in rq["limits"]:
+                    res.count("live:rlimit:RLIM_INFINITY")
+            if rq["kind"] == "rlimit" and not 0 <= rq["res"] < 16:
+                res.count("live:rlimit:resource-out-of-range")
+            res.case((tag, i, o), nontrivial=getter(o["req"]) != o["req"])
+            done += 1
+            if not judge(ctx, res, hist, i, im, m, live=True):
+                ok = False
+                break
+    finally:
+        if cm is not None:
+            try:
+                cm.__exit__(None, None, None)
+            except Exception:  # noqa: BLE001
+                pass
+    return done, ok
+
 
 
 def check_live(ctx, res):
@@ -1070,35 +1425,15 @@ def check_live(ctx, res):
             return 0
         T, S = live.spawn(), live.spawn()
         st0 = [live.os_state(T, env["eligible"]), live.os_state(S, env["eligible"])]
-        world = {"self": os.getpid(), "ncpu": env["ncpu"], "nr_open": env["nr_open"], "cap": env["cap"], "procs": st0}
         ops = live_ops(ctx, env, st0[0])
-        hist = {"world": world, "ops": ops, "mode": "live", "tag": "live"}
-        lines = [dict(world, op="reset")] + [{"op": "call", "pid": o["pid"], "req": o["req"]} for o in ops]
-        outs = ctx.driver().batch(lines)[1:]
-        proc = ps.Process(T)
-        for i, (o, m) in enumerate(zip(ops, outs)):
-            if "bad" in m:
-                raise RuntimeError("driver rejected %r: %s" % (o, m))
-            try:
-                poison_errno()
-                out = canon_ok(ps, o["req"], call_front(ps, proc, o["req"]))
-            except BaseException as e:  # noqa: BLE001
-                if isinstance(e, (KeyboardInterrupt, SystemExit)):
-                    raise
-                out = canon_exc(ps, e)
-            im = {"out": out, "procs": [live.os_state(T, env["eligible"]), live.os_state(S, env["eligible"])]}
-            # renderer validation: the status line is the kernel's rendering of the current mask
-            with open("/proc/%d/status" % T, "rb") as f:
-                line = [l for l in f.read().split(b"\n") if l.startswith(b"Cpus_allowed_list:")][0]
-            if line != b"Cpus_allowed_list:\t" + cpulist(im["procs"][0]["affinity"]).encode():
-                res.disagree("model", {"live_status_line": line.decode()}, cpulist(im["procs"][0]["affinity"]), None,
-                             note="kernel's Cpus_allowed_list differs from the harness renderer")
-            res.count("family:live")
-            res.count("live:" + o["req"]["kind"])
-            res.case(("live", i, o), nontrivial=getter(o["req"]) != o["req"])
-            done += 1
-            if not judge(ctx, res, hist, i, im, m, live=True):
-                break
+        ops = [o if "mode" in o else dict(o, mode=pick_mode(ctx.rng)) for o in ops]
+        n, ok = run_live(ctx, res, live, env, T, S, ops, "live", block=False)
+        done += n
+        if ok:
+            # the same child, now inside ONE warm oneshot block: set, then get in the same block shows the new value
+            n, ok = run_live(ctx, res, live, env, T, S, live_block_ops(env, live.os_state(T, env["eligible"])),
+                             "live-block", block=True)
+            done += n
     finally:
         live.close()
     return done
@@ -1125,21 +1460,29 @@ def correspond(ctx, res):
                     "families (nice, ionice class x level, all CPU subsets of <= 6 CPUs with duplicates and "
                     "out-of-range entries over 9 mask/cpuset configurations, every RLIMIT_* x limit pairs x "
                     "CAP_SYS_RESOURCE, PID 0) + PRNG histories (VERIF_SEED) + one live history on a spawned "
-                    "child; non-trivial = contains a set form; distinct = distinct (state, calls)")
+                    "child; every call is made in a call mode (see mode:* counts) which the model ignores; "
+                    "non-trivial = contains a set form; distinct = distinct (state, calls with modes, block)")
         hists = [{"world": w, "ops": o, "mode": "sim", "tag": t} for t, w, o in CORPUS]
         n_ex = 0
         for t, w, o in exhaustive_histories(ctx.tier):
-            hists.append({"world": w, "ops": o, "mode": "sim", "tag": t})
+            hists.append(with_modes(ctx.rng, {"world": w, "ops": o, "mode": "sim", "tag": t}))
             n_ex += 1
+        n_modes = 0
+        for h in mode_histories():
+            hists.append(h)
+            n_modes += 1
         for _ in range(ctx.n(1500, 40000)):
             w, o = gen_history(ctx.rng)
-            hists.append({"world": w, "ops": o, "mode": "sim", "tag": "random"})
+            hists.append(with_modes(ctx.rng, {"world": w, "ops": o, "mode": "sim", "tag": "random"}, p_block=0.25))
         total = check_sim(ctx, res, impl, hists)
         res.exhaustive = ("%d enumerated histories: nice -26..26 and the C int borders; ioclass None,-1..9,2^18-1,2^18,2^31 "
                           "x value None,-2..10,2^31; every ioprio class 0..7 for the get form; all 64 subsets of 6 CPUs "
                           "x {plain, duplicated, +nonexistent, +-1, +-2, +1024} x 9 (ncpu, cpuset, current mask) "
                           "configurations; 16 resources x 16 limit shapes x CAP_SYS_RESOURCE on/off; PID 0; the PRNG "
-                          "histories and the live run are samples" % n_ex)
+                          "histories and the live run are samples. Call modes (plain, oneshot, warm oneshot, as_dict, "
+                          "process_iter object, process_iter(attrs).info, second call; whole history inside one warm "
+                          "oneshot block) are drawn per call for the enumerated inputs and enumerated completely on "
+                          "%d histories (24 requests x 2 states x 7 modes + block)" % (n_ex, n_modes))
         res.extra["driver_lines"] = total
     finally:
         impl.close()
@@ -1157,7 +1500,7 @@ def _violates(ctx, inp):
         return None
     impl = SimImpl(ctx)
     try:
-        h = {"world": inp["world"], "ops": inp["ops"], "mode": "sim", "tag": "replay"}
+        h = {"world": inp["world"], "ops": inp["ops"], "mode": "sim", "tag": "replay", "block": inp.get("block")}
         rows_all, _ = run_sim_histories(ctx, impl, [h])
         for i, (im, m) in enumerate(rows_all[0]):
             if m["model"]["out"].get("kind") == "undefined-c":
